@@ -386,6 +386,12 @@ def blksSubs : List (Blk K) → List Nat
   | b :: bs => blkSubs b ++ blksSubs bs
 end
 
+/-- sub-behaviours in progress in the generators a task is about to run -/
+def Task.subs : Task → List Nat
+  | .resume k => K.subs k
+  | .exec _ _ => []
+  | .loopTI _ body hs _ _ => blkSubs body ++ blksSubs hs
+
 def stopsOf (cfg : Cfg) (subs : List Nat) : List Ev :=
   if cfg.stopInFinally then subs.map Ev.sstop else []
 
@@ -523,12 +529,16 @@ structure Trace where
   /-- events of each time step, the start of the behaviour included in step 0 -/
   events : List (List Ev)
   outcome : Outcome
+  /-- sub-behaviours still in progress when the simulation stopped (they are stopped by the simulator) -/
+  pending : List Nat := []
   deriving Repr, Inhabited
 
 /-- state of the agent's behaviour between steps: `none` = finished -/
 def simLoop (cfg : Cfg) (P : Prog) (envAt : Nat → Env) (fuel main : Nat) :
     Nat → Nat → Option Task → List Ev → Trace
-  | 0, _, _, _ => { actions := [], events := [], outcome := .ok }
+  | 0, _, st, pend =>
+    { actions := [], events := [pend], outcome := .ok,
+      pending := match st with | some task => task.subs | none => [] }
   | n + 1, t, none, pend =>
     let r := simLoop cfg P envAt fuel main n (t + 1) none []
     { r with actions := none :: r.actions, events := pend :: r.events }
@@ -547,7 +557,6 @@ def simulate (cfg : Cfg) (P : Prog) (envAt : Nat → Env) (fuel main steps : Nat
   match startChecks cfg P (envAt 0) main with
   | (lg, some v) => { actions := [], events := [lg], outcome := .violation v 0 }
   | (lg, none) =>
-    if steps = 0 then { actions := [], events := [lg], outcome := .ok }
-    else simLoop cfg P envAt fuel main steps 0 (some (.exec (getBeh P main).body [])) lg
+    simLoop cfg P envAt fuel main steps 0 (some (.exec (getBeh P main).body [])) lg
 
 end Scenic.Interrupts
